@@ -551,6 +551,8 @@ def case_misc(ctx, inp):
             # function level: chunks, and every block of every component = block offset + local index along its axis
             cs = [list(c) for c in r.chunks[1:]]
             ctx.eq("indices: chunks = ((1,)*ndim, *chunks)", [list(c) for c in r.chunks], [[1] * len(dims)] + cs)
+            if isinstance(chunks, tuple) and all(isinstance(c, tuple) for c in chunks) and r.chunks[1:] != chunks:
+                ctx.fail("indices: explicit chunks not honoured", observed=r.chunks[1:], expected=chunks)
             for b, offs, sizes, comps_, _w in ctx.lean(Sym("grid"), cs):
                 for j in range(len(dims)):
                     blk = np.asarray(r.blocks[(j,) + tuple(b)].compute(scheduler="sync"))
@@ -591,6 +593,8 @@ def case_misc(ctx, inp):
         shape, dt = tuple(inp["shape"]), inp.get("dtype", "f8")
         f = (lambda *a: sum((i + 1) * x for i, x in enumerate(a)))
         r = da.fromfunction(f, shape=shape, dtype=dt, chunks=chunks)
+        if isinstance(chunks, tuple) and all(isinstance(c, tuple) for c in chunks) and r.chunks != chunks:
+            ctx.fail("fromfunction: explicit chunks not honoured", observed=r.chunks, expected=chunks)
         if _same(ctx, "fromfunction", r, np.fromfunction(f, shape, dtype=dt)):
             # function level: every block = f on (block offset + local index)
             for b, offs, sizes, _c, w in ctx.lean(Sym("grid"), [list(c) for c in r.chunks]):
@@ -969,10 +973,14 @@ def generate(ctx):
         ch = [rand_comp(rng, s_) for s_ in shape]
         kk = rng.randint(-(shape[ax[0]] - 1), shape[ax[1]] - 1) if rng.random() < 0.85 else rng.randint(-shape[ax[0]] - 1, shape[ax[1]] + 1)
         yield "diag", {"op": "diagonal", "chunks": ch, "k": kk, "axes": ax}
-    for _ in range(ctx.n(10, 100)):
-        # 2-d -> 1-d diag: equal row/column chunks (fast path for k = 0)
-        c0 = rand_comp(rng, rng.randint(1, 8))
-        yield "diag", {"chunks": [c0, c0], "k": rng.choice([0, 0, 0, 1, -1]), "dask": True}
+    for _ in range(ctx.n(16, 160)):
+        # 2-d -> 1-d diag: equal row/column chunks (fast path for k = 0), or a square array whose row and column chunkings
+        # differ although they have the same number of blocks (must not take the fast path)
+        c0 = rand_comp(rng, rng.randint(2, 8), style=rng.choice(["irregular", "ragged", "uniform"]))
+        c1 = c0
+        if rng.random() < 0.5:
+            c1 = list(reversed(c0)) if list(reversed(c0)) != c0 else c0[1:] + c0[:1]
+        yield "diag", {"chunks": [c0, c1], "k": rng.choice([0, 0, 0, 1, -1]), "dask": True}
     for _ in range(ctx.n(8, 60)):
         nd = rng.choice([2, 3])
         shape = [rng.randint(1, 3) for _ in range(nd)]
@@ -987,10 +995,14 @@ def generate(ctx):
                            "indexing": rng.choice(["xy", "ij"]), "sparse": rng.random() < 0.5, "mix": rng.random() < 0.15}
         elif op == "indices":
             dims = [rng.randint(1, 5) for _ in range(rng.randint(1, 3))]
+            if rng.random() < 0.4:      # equal dimensions, different chunkings per axis (an axis mix-up keeps the shape)
+                dims = [rng.randint(2, 5)] * len(dims)
             yield "misc", {"op": op, "dims": dims, "dtype": rng.choice(["i8", "f8", "i4"]),
                            "chunks": [rand_comp(rng, d) for d in dims] if rng.random() < 0.7 else [rng.randint(1, d) for d in dims]}
         else:
             shape = [rng.randint(1, 5) for _ in range(rng.randint(1, 3))]
+            if rng.random() < 0.4:
+                shape = [rng.randint(2, 5)] * len(shape)
             yield "misc", {"op": op, "shape": shape, "dtype": rng.choice(["f8", "i8"]),
                            "chunks": [rand_comp(rng, d) for d in shape] if rng.random() < 0.7 else _shape_chunks(rng, shape)}
     if ctx.thorough():
